@@ -210,11 +210,12 @@ def _argv_of_plan(p):
 
 
 def project(case, s):
-    """candidates with their plans -> sorted list of what the program would receive for each candidate"""
+    """candidates with their plans -> sorted list of what the program would receive for each candidate;
+    pty observation -> the recorded argv"""
     if case.stream not in ("cmpl", "tab") or s in ("[]", "-") or s.startswith(("UNMODELLED", "PANIC", "HANG", "CRASH", "ERR ", "MISSING", "NOT-RUN")):
         return s
     if case.stream == "tab":
-        return s
+        return s[s.index("A="):] if "A=" in s else s
     out = []
     for cand in s.split("&"):
         f = cand.split("@")
@@ -227,3 +228,215 @@ def nontrivial(c, M, S, g, cls):
     if n is not None and M not in ("[]",) and any(ch in n for ch in SPECIAL):
         return (c.meta["ctx"], n)
     return None
+
+
+# ----------------------------------------------------------------------------- process level: the real binary under a pty
+
+NOTES = []
+PTY_ALPHA = [" ", "'", '"', "\\", "$", "?", "[", "]", "{", "}", ",", "~", "#", "|", "&", ";", "<", ">", "(", ")", "^", "=", "%", "é", "日", "a", "b", "c", "x", ".", "-"]
+TIMEOUT = 30.0
+
+
+def pty_name(r, stem):
+    """a name starting with the plain stem, the rest over the alphabet (no `*`, backquote, `!`, `$(`: those would run
+    commands or need the glob oracle; they are covered in-process)"""
+    while True:
+        tail = "".join(r.choice(PTY_ALPHA) if r.chance(1, 2) else r.choice(["a", "b", "c", "x", "1"]) for _ in range(r.below(7)))
+        n = stem + tail
+        if "$(" not in n and valid_name(n):
+            return n
+
+
+def pty_session(cicada, sb, idx, entries, keys, env_extra):
+    """one shell in a pseudo-terminal: type `keys`, then a sentinel command; returns (history rows, argv records, error or None).
+    Every wait is on an observable condition (prompt text, sentinel record in the side file, child exit)."""
+    base = os.path.join(sb.dir, "s%d" % idx)
+    cwd = os.path.join(base, "cwd")
+    home = os.path.join(base, "home")
+    os.makedirs(cwd)
+    os.makedirs(home)
+    for p, d in entries:
+        fp = os.path.join(cwd.encode(), p.encode("utf-8"))
+        if d:
+            os.makedirs(fp, exist_ok=True)
+        else:
+            os.makedirs(os.path.dirname(fp), exist_ok=True)
+            open(fp, "w").close()
+    log = os.path.join(base, "argv.log")
+    hist = os.path.join(home, "history.sqlite")
+    env = sb.env({"HOME": home, "HISTORY_FILE": hist, "XDG_CONFIG_HOME": os.path.join(home, ".config"), "ARGV_LOG": log})
+    env.update(env_extra)
+    pid, fd = pty.fork()
+    if pid == 0:
+        try:
+            os.chdir(cwd)
+            os.execve(cicada, [cicada], env)
+        finally:
+            os._exit(127)
+    out = bytearray()
+    err = None
+
+    def drain(t):
+        r_, _, _ = select.select([fd], [], [], t)
+        if r_:
+            try:
+                d = os.read(fd, 65536)
+            except OSError:
+                return False
+            if not d:
+                return False
+            out.extend(d)
+        return True
+
+    def wait_for(cond, what):
+        end = time.time() + TIMEOUT
+        while time.time() < end:
+            if cond():
+                return True
+            if not drain(0.02):
+                return cond()
+        return False
+
+    def done_logged():
+        try:
+            return hx("__done__") in open(log).read()
+        except OSError:
+            return False
+
+    exited = [False]
+
+    def child_gone():
+        if exited[0]:
+            return True
+        try:
+            p_, _ = os.waitpid(pid, os.WNOHANG)
+        except ChildProcessError:
+            p_ = pid
+        if p_ == pid:
+            exited[0] = True
+        return exited[0]
+
+    if not wait_for(lambda: b"$ " in out, "prompt"):
+        err = "time-out waiting for the first prompt"
+    else:
+        os.write(fd, keys.encode("utf-8") + b"\r" + b"argv __done__\r")
+        if not wait_for(done_logged, "sentinel"):
+            err = "time-out waiting for the sentinel command after the completed line (screen: %r)" % bytes(out[-160:])
+        else:
+            try:
+                os.write(fd, b"exit\r")
+            except OSError:
+                pass
+            if not wait_for(child_gone, "exit"):
+                err = "time-out waiting for the shell to exit"
+    if not child_gone():
+        try:
+            os.kill(pid, signal.SIGKILL)
+        except OSError:
+            pass
+        try:
+            os.waitpid(pid, 0)
+        except OSError:
+            pass
+    try:
+        os.close(fd)
+    except OSError:
+        pass
+    rows = []
+    try:
+        con = sqlite3.connect(hist)
+        rows = [x[0] for x in con.execute("select inp from cicada_history order by rowid")]
+        con.close()
+    except sqlite3.Error as e:
+        err = err or ("history database: %s" % e)
+    recs = []
+    if os.path.exists(log):
+        lines = open(log).read().split("\n")
+        i = 0
+        while i < len(lines) and lines[i]:
+            n = int(lines[i])
+            recs.append(lines[i + 1:i + 1 + n])
+            i += n + 2
+    return rows, recs, err
+
+
+def process(tier, rng, cicada):
+    """`argv <prefix><TAB><Enter>` in a generated directory: accepted line (history database) and recorded argv"""
+    r = rng.fork("c20-p")
+    n = 25 if tier == "quick" else 300
+    sb = proc.Sandbox("c20")
+    penv = sb.env()
+    cases = []
+    plans = []
+    fixed = [("u", "sp", "sp ace.txt", False, False), ("s", "di", "dir one", True, False), ("d", "q", 'q"uo te', False, False), ("u", "it", "it's", False, False),
+             ("u", "d", "d ir", True, True), ("u", "é", "éa b", False, False)]
+    for i in range(n):
+        if i < len(fixed):
+            ctx, prefix, name, is_dir, cd = fixed[i]
+            others = ["zz", "other"]
+        else:
+            ctx = r.choice(CTXS)
+            stem = r.choice(["a", "ab", "abc", "x1", "c"])
+            name = pty_name(r, stem)
+            is_dir = r.chance(1, 3)
+            cd = is_dir and r.chance(1, 2)
+            prefix = stem[:1 + r.below(len(stem))]
+            others = [o for o in (pty_name(r, r.choice(["z", "y", "w"])) for _ in range(r.below(5)))]
+        entries = [(name, is_dir)] + [(o, r.chance(1, 3)) for o in others if o != name]
+        if is_dir and r.chance(1, 2):
+            entries.append((name + "/inner", False))
+        cmdw = "cd" if cd else "argv"
+        line = cmdw + " " + typed(ctx, prefix)
+        after = {"s": "'", "d": '"'}.get(ctx, "") if is_dir else ""
+        env = gens.env_field(exported={k: v for k, v in penv.items() if k in ("HOME", "USER", "PATH", "LANG", "TERM")})
+        c = Case("tab", [env, tree_field(entries), hx(line), hx(after), hx(name), "d" if is_dir else "f", ctx, hx(prefix)],
+                 {"gen": "p", "ctx": ctx, "n": name, "line": line, "after": after})
+        c.id = "t%d" % i
+        cases.append(c)
+        plans.append((entries, line + "\t" + after))
+    # HOME differs per session: the model is told the session's own value below
+    pred = {}
+    for i, c in enumerate(cases):
+        home = os.path.join(sb.dir, "s%d" % i, "home")
+        e = dict(penv)
+        e["HOME"] = home
+        c.fields[0] = gens.env_field(exported={k: v for k, v in e.items() if k in ("HOME", "USER", "PATH", "LANG", "TERM")})
+    pred = core.run_model(cases, "C20tabpre")
+    driven, impl = [], {}
+    skipped = 0
+
+    def one(ic):
+        i, c = ic
+        m = pred.get(c.id)
+        if m is None or m[0].startswith(("UNMODELLED", "INCOMPLETE", "PANIC")):
+            return c, None, "not driven: model says %s" % (m[0][:40] if m else "nothing")
+        rows, recs, err = pty_session(cicada, sb, i, plans[i][0], plans[i][1], {})
+        if err:
+            return c, None, "pty harness error on %r: %s" % (c.meta["line"], err)
+        first = rows[0] if rows else ""
+        if first == "argv __done__":
+            first = ""
+        before = [x for x in recs if x != [hx("argv"), hx("__done__")]]
+        a = ";".join(",".join(x) for x in before) if before else "none"
+        return c, "L=%s|A=%s" % (hx(first), a), None
+
+    res = proc.pmap(one, list(enumerate(cases)), workers=4 if tier == "quick" else 8)
+    for c, o, note in res:
+        if o is None:
+            NOTES.append(note)
+            if note.startswith("not driven"):
+                skipped += 1
+            continue
+        driven.append(c)
+        impl[c.id] = o
+    NOTES.append("pty stream: %d completions driven through the real binary, %d not driven" % (len(driven), len(cases) - len(driven)))
+    sb.cleanup()
+    return [("pty", driven, impl)]
+
+
+def post(rep):
+    for n_ in NOTES:
+        rep.notes.append(n_)
+    errs = [n_ for n_ in NOTES if n_.startswith("pty harness error")]
+    if errs:
+        core.log("pty harness errors (reported in the evidence notes, not violations): %d, first: %s" % (len(errs), errs[0][:300]))
